@@ -726,6 +726,9 @@ class BGP(protocol.Protocol):
                     del value14['nlri']
                     key = "{"
                     for k in sorted(prefix.keys()):
+                        if k == 'label':
+                            # the label is not part of the route's identity (a withdraw carries 0x800000)
+                            continue
                         key += '"' + str(k) + '"'
                         key += ':'
                         key += '"' + str(prefix[k]) + '"'
@@ -779,6 +782,9 @@ class BGP(protocol.Protocol):
                 for prefix in attr[15]['withdraw']:
                     key = "{"
                     for k in sorted(prefix.keys()):
+                        if k == 'label':
+                            # the label is not part of the route's identity (a withdraw carries 0x800000)
+                            continue
                         key += '"' + str(k) + '"'
                         key += ':'
                         key += '"' + str(prefix[k]) + '"'
@@ -826,6 +832,9 @@ class BGP(protocol.Protocol):
                     del value14['nlri']
                     key = "{"
                     for k in sorted(prefix.keys()):
+                        if k == 'label':
+                            # the label is not part of the route's identity (a withdraw carries 0x800000)
+                            continue
                         key += '"' + str(k) + '"'
                         key += ':'
                         key += '"' + str(prefix[k]) + '"'
@@ -866,6 +875,9 @@ class BGP(protocol.Protocol):
                 for prefix in attr[15]['withdraw']:
                     key = "{"
                     for k in sorted(prefix.keys()):
+                        if k == 'label':
+                            # the label is not part of the route's identity (a withdraw carries 0x800000)
+                            continue
                         key += '"' + str(k) + '"'
                         key += ':'
                         key += '"' + str(prefix[k]) + '"'
